@@ -68,6 +68,10 @@ CLAIMS.update({
     "C08": ("dominating facts at every statement-reader call and every define/undef/include site, regex-tree enumeration of parenthesis skeletons, def-use of the macro table through the recursive include call, taint of macro text into regex sinks", "Decides necessary conditions around the conditional state machine: in parse() every statement reader is behind the skip test, which tests the same 1-based line variable against region[0] <= line <= region[1] and the directive-line list produced by the preprocessing pass of the same parse (run iff preproc); region bounds are stored as i + 1; #define, #undef, #include and directive-line recording happen only under a flag computed over the whole stack of open conditionals; macro and parameter names are escaped and bodies never used as replacement templates; every match of the `defined` rewriting pattern has balanced parentheses and the looked-up group is the identifier; the macro table is a copy, passed to and taken back from included files, used by every condition, stored on the file; the expansion cache is keyed by everything its entries are computed from. Not decided (said plainly): that the #if/#elif/#else automaton and the expression evaluator agree with a reference preprocessor for all nestings and truth assignments, and character-exact expansion of function-like macro arguments."),
 })
 
+CLAIMS.update({
+    "C09": ("class-set (protocol) analysis of result objects narrowed by dominating isinstance / get_type() facts, nullability of dict.get results and link fields, override signature agreement, format-string and sign-test queries", "Decides, for the nine position-based handlers and the helpers they hand objects to: every attribute read on an object that came out of get_definition / find_in_scope / the candidate lists exists for every class the object can still have at that point (class sets from constructors, narrowed by isinstance and get_type() comparisons, with each class's possible get_type() values read from its code and the bundled intrinsic tables), or AttributeError is absorbed; dict.get results, nullable link fields and file-less intrinsic ASTs are tested before use (also when handed to a function that dereferences its parameter); every method call fits every remaining class's override; no computed text is used as a format string; a not-found column never reaches a range builder without a sign test; a position outside the document yields None through get_line / get_line_prefix and handlers touch the line only after that test. Not decided: absence of other exceptions in text helpers (index arithmetic in get_paren_level, get_var_stack), that every returned position lies inside the target document."),
+})
+
 NA_REASON = "check under construction in this round (rules designed in DESIGN.md section 3, not yet implemented); will move to checks once its rules run"
 
 
